@@ -314,7 +314,7 @@ func runRun(t *toks, out *bufio.Writer) {
 			}
 		}
 		el := time.Since(t0)
-		if cancelMode == 2 && el > time.Duration(ms+1000)*time.Millisecond {
+		if cancelMode == 2 && el > time.Duration(ms+3000)*time.Millisecond {
 			late = 1
 		}
 		if cancelMode == 3 {
@@ -647,7 +647,7 @@ func runFuzz(t *toks, out *bufio.Writer) {
 					cpu.IFF1 = false
 					cpu.Interrupt = &z80.Interrupt{Type: z80.IMType, Data: []uint8{0xFF}}
 				}
-				ctx, cancel := context.WithTimeout(context.Background(), time.Second)
+				ctx, cancel := context.WithTimeout(context.Background(), 3*time.Second)
 				err := cpu.Run(ctx)
 				cancel()
 				if err != nil {
@@ -660,7 +660,7 @@ func runFuzz(t *toks, out *bufio.Writer) {
 		res := ""
 		select {
 		case res = <-done:
-		case <-time.After(4 * time.Second):
+		case <-time.After(10 * time.Second):
 			res = "hang"
 		}
 		if res != "ok" {
